@@ -25,6 +25,65 @@ func init() {
 	workloadFeatures["whale-exit"] = featWhaleExit
 	workloadFeatures["c15"] = featC15
 	workloadFeatures["overflow-conversion"] = featOverflow
+	workloadFeatures["spr-impostor"] = featImpostor
+	workloadFeatures["oob-pre202"] = featOutOfBand
+}
+
+// featImpostor (tagged): one of the 25 staking records names a top holder's id but is signed by, and
+// pays, somebody else (recorded finding: the id is not bound to the signing key).
+func featImpostor(m *gen.Mixed, ts *gen.TieSetup, p *modelParams) {
+	e := m.W.Eras
+	foreign := forge.NewKey(fmt.Sprintf("impostor-%d", p.Seed))
+	for _, h := range []uint32{e.SprSig + 3, e.V202 + 3} {
+		h := h
+		m.ForceGraded[h] = true
+		m.Schedule(h, func(v *gen.View, s *forge.BlockSpec) {
+			if len(s.SPR) < 25 {
+				return
+			}
+			s.SPR = s.SPR[:25]
+			victim := m.W.Miners[0]
+			// the impostor takes the place of the victim's own record (or the last one)
+			idx := 24
+			s.SPR[idx] = forge.MakeSPR(forge.SPRParams{Version: e.SPRVersion(h), Height: h, Staker: victim.FA(), Signer: foreign, Payout: foreign.FA().String(), Assets: forge.PriceVector(5, m.W.Prices)})
+		})
+	}
+}
+
+// featOutOfBand (tagged): before 2.0.2 the OPR winner lies outside the SPR band (recorded finding:
+// the daemon returns early and applies nothing of the block).
+func featOutOfBand(m *gen.Mixed, ts *gen.TieSetup, p *modelParams) {
+	e := m.W.Eras
+	for _, h := range []uint32{e.V20 + 4, e.V20Dev + 4} {
+		h := h
+		if h%144 == 0 {
+			h++
+		}
+		m.ForceGraded[h] = true
+		m.Schedule(h, func(v *gen.View, s *forge.BlockSpec) {
+			if len(s.SPR) < 25 || len(s.OPR) < 25 {
+				return
+			}
+			sp := map[string]uint64{}
+			for k, x := range m.W.Prices {
+				sp[k] = x * 2
+			}
+			var st []forge.Key
+			for _, a := range gen.TopPEG(v.Balances, 100) {
+				for _, k := range m.Actors {
+					if k.FA() == a && !k.IsEth() {
+						st = append(st, k)
+					}
+				}
+			}
+			if len(st) > 30 {
+				st = st[:30]
+			}
+			if len(st) >= 25 {
+				s.SPR = m.W.StdSPRs(h, st, sp)
+			}
+		})
+	}
 }
 
 // featOverflow (tagged): a conversion whose product does not fit int64 (recorded finding: it is
